@@ -68,15 +68,24 @@ class Bench:
             m[2 * k + 2] = by[(f'roadm {b}', f'roadm {a}')]
         guard = (self.idxmin - self.nmin) * GRID
         assert self.nmax - self.idxmax == self.idxmin - self.nmin
+        pad = 2        # the OMS of the last link start `pad` slots higher and are widened by align_grids (as build_oms_list does)
+        last = {2 * (len(self.sites) - 1) - 1, 2 * (len(self.sites) - 1)}
         for mo, o in m.items():
+            lo = self.nmin + pad if mo in last else self.nmin
+            if mo in last and not all(n in self.unusable.get(mo, ()) for n in range(self.nmin, lo)):
+                raise Machinery('bench: the padded indices must be unusable in the model')
             bm = [BitmapValue.UNUSABLE if n in self.unusable.get(mo, ()) else BitmapValue.FREE
-                  for n in range(self.nmin, self.nmax + 1)]
+                  for n in range(lo, self.nmax + 1)]
             # a quarter-slot nudge away from zero keeps int() truncation of frequency_to_n on the intended index
-            fmin = F0 + self.nmin * GRID + (0.25 * GRID if self.nmin > 0 else -0.25 * GRID if self.nmin < 0 else 0)
+            fmin = F0 + lo * GRID + (0.25 * GRID if lo > 0 else -0.25 * GRID if lo < 0 else 0)
             fmax = F0 + self.nmax * GRID + (0.25 * GRID if self.nmax > 0 else -0.25 * GRID if self.nmax < 0 else 0)
             o.update_spectrum(fmin, fmax, guardband=guard, grid=GRID, existing_spectrum=bm)
             b = o.spectrum_bitmap
             b.freq_index_min, b.freq_index_max = self.idxmin, self.idxmax
+        from gnpy.topology.spectrum_assignment import align_grids
+        align_grids(list(m.values()))
+        for mo, o in m.items():
+            b = o.spectrum_bitmap
             if (b.n_min, b.n_max) != (self.nmin, self.nmax):
                 raise Machinery(f'bench grid mismatch {(b.n_min, b.n_max)}')
         return oms_list, m
@@ -108,10 +117,11 @@ def make_request(t, i):
     return r
 
 
-def occupied(o):
+def occupied(o, exclude=()):
+    """indices marked OCCUPIED, without the ones the model treats as unusable (padding added by grid alignment)"""
     from gnpy.topology.spectrum_assignment import BitmapValue
     b = o.spectrum_bitmap
-    return sorted(n for n, v in zip(b.freq_index, b.bitmap) if v is BitmapValue.OCCUPIED)
+    return sorted(n for n, v in zip(b.freq_index, b.bitmap) if v is BitmapValue.OCCUPIED and n not in exclude)
 
 
 def tdesc(t):
@@ -150,7 +160,7 @@ def replay_history(bench, js, chk):
             for o in t['path']:
                 occ[o] |= add
         same_res = got[0] == exp['st'] and got[1] == exp['nm']
-        bad_oms = [k for k in occ if occupied(m[k]) != sorted(occ[k])]
+        bad_oms = [k for k in occ if occupied(m[k], bench.unusable.get(k, ())) != sorted(occ[k])]
         blocked_wrote = (exp['st'] != 'served') and bad_oms
         if not same_res or bad_oms:
             kind = 'result' if not same_res else ('blocked-request-changed-state' if blocked_wrote else 'occupancy')
@@ -158,11 +168,11 @@ def replay_history(bench, js, chk):
             chk.violation(sig, dict(history=[tdesc(x['t']) for x in js['hist']], step=i, model=exp,
                                     code=dict(st=got[0], nm=got[1]),
                                     model_occ={k: sorted(v) for k, v in occ.items()},
-                                    code_occ={k: occupied(m[k]) for k in occ}))
+                                    code_occ={k: occupied(m[k], bench.unusable.get(k, ())) for k in occ}))
             return False
     final = {int(k): sorted(v) for k, v in js['occ'].items()} if isinstance(js['occ'], dict) else \
         {i + 1: sorted(v) for i, v in enumerate(js['occ'])}
-    if any(occupied(m[k]) != final[k] for k in final):
+    if any(occupied(m[k], bench.unusable.get(k, ())) != final[k] for k in final):
         chk.violation('B2|final-occupancy', dict(history=[tdesc(x['t']) for x in js['hist']]))
         return False
     return True
@@ -186,6 +196,8 @@ def record_planning(name, net, eq, data, chk):
     pth_assign_spectrum call (inputs captured before the call, results and bitmaps after it)"""
     import gnpy.tools.worker_utils as wu
     from gnpy.topology.spectrum_assignment import build_path_oms_id_list, BitmapValue
+    from gnpy.core.elements import Edfa, Multiband_amplifier
+    from harness.checks.c15 import fidx
     orig = wu.pth_assign_spectrum
     box = {}
 
@@ -197,7 +209,15 @@ def record_planning(name, net, eq, data, chk):
             b = o.spectrum_bitmap
             if b.freq_index != list(range(b0.n_min, b0.n_max + 1)):
                 raise Machinery(f'{name}: OMS {o.oms_id} index axis differs from OMS 0')
-            tr['unusable'][o.oms_id] = intervals([v is not BitmapValue.FREE for v in b.bitmap], b.freq_index)
+            # the usable band is what the OMS's amplifiers have in common (configuration), not what the bitmap says:
+            # the bitmap is only taken at its word for an OMS without any amplifier (SI default band)
+            amps = [[(fidx(x['f_min'], 'lo'), fidx(x['f_max'], 'hi')) for x in e.params.bands]
+                    for e in o.el_list if isinstance(e, (Edfa, Multiband_amplifier))]
+            if amps:
+                common = [all(any(lo <= n <= hi for lo, hi in a) for a in amps) for n in b.freq_index]
+                tr['unusable'][o.oms_id] = intervals([not c for c in common], b.freq_index)
+            else:
+                tr['unusable'][o.oms_id] = intervals([v is not BitmapValue.FREE for v in b.bitmap], b.freq_index)
         evs = []
         for pth, rq, rpth in zip(pths, rqs, rpths):
             pre = hasattr(rq, 'blocking_reason')
@@ -328,7 +348,7 @@ def run(chk):
     if r3.violated or (r3.error and 'Finished' not in r3.out and not r3.emitted):
         raise Machinery(f'simulation run failed: {r3.error}')
     hists += r3.emitted
-    bench = Bench(2, -8, 8, -7, 7, {3: range(5, 9), 4: range(5, 9)})
+    bench = Bench(2, -8, 8, -7, 7, {3: list(range(5, 9)) + [-8, -7], 4: list(range(5, 9)) + [-8, -7]})
     seen = set()
     steps = 0
     for js in hists:
